@@ -267,7 +267,7 @@ Lemma same_occupied_same_abs s1 s2 :
 Proof.
   intros Hc Hst Hsz Hit. unfold abs. rewrite <- Hsz.
   apply map_ext_in. intros i Hi. apply Hit.
-  unfold zseq in Hi. apply in_map_iff in Hi. destruct Hi as (k & <- & Hk).
+  rewrite zseq_map_seq in Hi. apply in_map_iff in Hi. destruct Hi as (k & <- & Hk).
   apply in_seq in Hk. lia.
 Qed.
 
